@@ -49,13 +49,14 @@ Definition go_fmt_sprintf (c : conv) (sp : spec) (n : Z) : list Z :=
     let out := (if negative then [45] else if plus sp then [43] else if space sp then [32] else []) ++ ds2 in
     if minus sp then padr w out else padl w out.
 
-(* %c: Go %s of the one-byte string (precision truncates, 0 flag pads with zeros) *)
-Definition go_fmt_c (sp : spec) (n : Z) : list Z :=
-  let s := [n mod 256] in
-  let s := match prec sp with Some p => firstn (Z.to_nat p) s | None => s end in
+(* %s and %c after round 6: (intSpec).formatString — at most prec BYTES (Go's %.Ns counts runes),
+   padded with spaces to width BYTES, only '-' has a meaning; for %c the precision is dropped *)
+Definition go_fmt_s (sp : spec) (s : list Z) : list Z :=
+  let s := match prec sp with Some p => if p <? len s then firstn (Z.to_nat p) s else s | None => s end in
   let w := width_of sp in
-  if minus sp then padr w s
-  else if zero sp then rep 48 (w - len s) ++ s else padl w s.
+  if minus sp then padr w s else padl w s.
+Definition go_fmt_c (sp : spec) (n : Z) : list Z :=
+  go_fmt_s (mkSpec (minus sp) (plus sp) (space sp) (sharp sp) (zero sp) (wid sp) None) [n mod 256].
 
 (* ---------------------------------------------------------------- S: ISO C printf *)
 Definition c_fmt (c : conv) (sp : spec) (n : Z) : list Z :=
@@ -78,6 +79,11 @@ Definition c_fmt (c : conv) (sp : spec) (n : Z) : list Z :=
 (* %c: the int argument converted to unsigned char; only '-' and a width are defined *)
 Definition c_fmt_c (sp : spec) (n : Z) : list Z :=
   if minus sp then padr (width_of sp) [n mod 256] else padl (width_of sp) [n mod 256].
+(* %s: "characters from the array are written up to (but not including) the terminating null
+   character; if the precision is specified, no more than that many bytes are written" *)
+Definition c_fmt_s (sp : spec) (s : list Z) : list Z :=
+  let s := match prec sp with Some p => firstn (Z.to_nat p) s | None => s end in
+  if minus sp then padr (width_of sp) s else padl (width_of sp) s.
 
 (* the combinations for which C defines the behaviour and that golua passes through *)
 Definition c_defined (c : conv) (sp : spec) : bool :=
